@@ -26,6 +26,9 @@ type C12Case struct {
 	Flood    int      `json:"flood"`     // output chunks sent around the moment of attaching
 	After    int      `json:"after"`     // round trips after the listener closed
 	End      string   `json:"end"`       // in out both
+	// HoldMs is how long the attached shell sits idle after the listener closed
+	// before it is used again: "keeps working undisturbed" has no time limit.
+	HoldMs int `json:"hold_ms,omitempty"`
 }
 
 func probe(addr string) bool {
@@ -191,6 +194,18 @@ func runC12(t testing.TB, c C12Case) (key, what string, classes map[string]int) 
 		time.Sleep(50 * time.Millisecond)
 	}
 	classes["listener-closed"]++
+	if c.HoldMs > 0 {
+		time.Sleep(time.Duration(c.HoldMs) * time.Millisecond)
+		if c.HoldMs >= 5000 {
+			classes["idle-5s-or-more-after-close"]++
+		}
+		s.Barrier()
+		for _, l := range s.Lines() {
+			if l.Seq > from && (strings.Contains(l.CL.Line, "Shell is gone") || strings.Contains(l.CL.Line, "connection closed")) {
+				return "shell-disturbed-while-idle", fmt.Sprintf("the attached shell sat idle for %d ms after the listener closed and was torn down: %q", c.HoldMs, clip(l.CL.Line, 160)), classes
+			}
+		}
+	}
 	// the attached shell keeps working: everything sent is displayed in order,
 	// every line entered arrives
 	for i := 0; i < c.After; i++ {
@@ -297,6 +312,11 @@ func genC12() *rapid.Generator[C12Case] {
 			After:    rapid.IntRange(1, 4).Draw(t, "after"),
 			End:      rapid.SampledFrom([]string{"in", "out", "both"}).Draw(t, "end"),
 		}
+		holds := []int{0, 0, 0, 0, 0, 0, 0, 0, 0, 0, 0, 0, 0, 0, 50, 700, 2500, 6500}
+		if ev.Thorough() {
+			holds = append(holds, 6500, 6500, 12000, 31000)
+		}
+		c.HoldMs = rapid.SampledFrom(holds).Draw(t, "hold")
 		for i := rapid.IntRange(0, 4).Draw(t, "npre"); i > 0; i-- {
 			c.Pre = append(c.Pre, rapid.SampledFrom([]string{"half-in-dies", "half-out-dies", "empty-id", "file", "script"}).Draw(t, "pre"))
 		}
@@ -328,7 +348,7 @@ func TestC12(t *testing.T) {
 		c := genC12().Draw(rt, "case")
 		k, w, cl := runC12(t, c)
 		canon, _ := json.Marshal(c)
-		nt := len(c.Pre) > 0 || c.Flood > 0 || c.PreLines > 0
+		nt := len(c.Pre) > 0 || c.Flood > 0 || c.PreLines > 0 || c.HoldMs > 0
 		var names []string
 		for kk := range cl {
 			names = append(names, kk)
